@@ -276,6 +276,19 @@ theorem restart_tasks_to_hold_partial (g : Graph) (ops : List Op) :
     rw [(restoreProxy_other x).1, (restoreProxy_other x).2.1]
     exact hall hp hh x hx hgt
 
+/-- **Successive restarts**: a second restart with nothing in between changes nothing but the internal
+`is_updated` flags — pooled proxies, `tasks_to_hold`, hold point, stop point, stop task, absolute outputs and
+history are those of the first restart (in every state of every run). -/
+theorem successive_restarts (g : Graph) (ops : List Op) : ∀ s ∈ run g ops,
+    (restart g (restart g s)).pool.map forgetUpd = (restart g s).pool.map forgetUpd ∧
+    (restart g (restart g s)).tasksToHold = (restart g s).tasksToHold ∧
+    (restart g (restart g s)).holdPoint = (restart g s).holdPoint ∧
+    (restart g (restart g s)).stopPoint = (restart g s).stopPoint ∧
+    (restart g (restart g s)).stopTask = (restart g s).stopTask ∧
+    (restart g (restart g s)).absDone = (restart g s).absDone ∧
+    (restart g (restart g s)).hist = (restart g s).hist :=
+  fun s hs => restart_restart g s (nodup_run g ops s hs)
+
 /-! ### concrete runs: non-vacuity, and the two refutations -/
 
 /-- one task `a` on cycle points 1 and 2, runahead limit P1 -/
